@@ -177,13 +177,8 @@ where
         let old_key = insert(ctx.state_mut(), key_ident, cloned_key.into());
         let old_value = insert(ctx.state_mut(), value_ident, cloned_value);
 
-        let result = match (self.runner)(ctx) {
-            Ok(value) | Err(ExpressionError::Return { value, .. }) => Ok(value),
-            err @ Err(_) => err,
-        };
+        let result = self.run(ctx);
 
-        // Restore the closure parameters before propagating any error, so that they never
-        // leak into (or shadow) the enclosing scope.
         cleanup(ctx.state_mut(), key_ident, old_key);
         cleanup(ctx.state_mut(), value_ident, old_value);
 
@@ -211,7 +206,7 @@ where
         let old_index = insert(ctx.state_mut(), index_ident, index.into());
         let old_value = insert(ctx.state_mut(), value_ident, cloned_value);
 
-        let result = (self.runner)(ctx);
+        let result = self.run(ctx);
 
         cleanup(ctx.state_mut(), index_ident, old_index);
         cleanup(ctx.state_mut(), value_ident, old_value);
@@ -233,7 +228,7 @@ where
         let ident = self.ident(0);
         let old_key = insert(ctx.state_mut(), ident, cloned_key.into());
 
-        let result = (self.runner)(ctx);
+        let result = self.run(ctx);
 
         cleanup(ctx.state_mut(), ident, old_key);
 
@@ -256,13 +251,22 @@ where
         let ident = self.ident(0);
         let old_value = insert(ctx.state_mut(), ident, cloned_value);
 
-        let result = (self.runner)(ctx);
+        let result = self.run(ctx);
 
         cleanup(ctx.state_mut(), ident, old_value);
 
         *value = result?;
 
         Ok(())
+    }
+
+    /// Run the closure body once. A `return` inside the body ends the current iteration with
+    /// the returned value, for every kind of iteration.
+    fn run(&self, ctx: &mut Context) -> Result<Value, ExpressionError> {
+        match (self.runner)(ctx) {
+            Ok(value) | Err(ExpressionError::Return { value, .. }) => Ok(value),
+            err @ Err(_) => err,
+        }
     }
 
     fn ident(&self, index: usize) -> Option<&Ident> {
